@@ -31,9 +31,15 @@ def correspond(ctx):
 
 
 def search(ctx):
+    """failing-input search: first the disagreeing cases themselves, run to the end on the real engine against their
+    unpaused reference run; then a wider population with more failing actions (errors handled while PAUSED)"""
+    from harness import engine_stream
     from vlib import par
+    engine_stream.search_from_core(ctx, ['C10'], 'pause')
+    if ctx.violations:
+        return
     par.run_parallel(ctx, 'harness.engine_stream', 'run_chunk',
-                     [{'n_programs': 30, 'props': ['C10'], 'mode': 'pause'}] * 14)
+                     [{'n_programs': 30, 'props': ['C10'], 'mode': 'pause', 'p_err': 0.3}] * 14)
 
 
 def replay(ctx, rep):
